@@ -9,6 +9,7 @@ CONSTANTS
   MaxBurst = 2
   BurstReps = 3
   Opts = {}
+  Anns = {"adderr", "mapcont"}
   Depth = 30
 INVARIANT Inv
 CONSTRAINT EmitAll
